@@ -5,7 +5,7 @@ CONSTANTS
   Lib <- LibDef
   MaxBlocks = 2
   Checks = {0, 1, 4, 10, 2, 15}
-  Pids = {1, 3, 5, 8}
+  Pids = {1, 3, 5, 8, 9}
   Pids2 = {2, 5}
 INVARIANTS PadLemma AcceptsWellFormed AcceptImpliesIntegrity UnsupportedRefused SinkOnlyVerified MutationsAreCaught NoWrap Emit
 CHECK_DEADLOCK FALSE
